@@ -23,6 +23,7 @@ func main() {
 	repo := flag.String("repo", "/repo", "repository to analyse")
 	verif := flag.String("verif", "", "verif directory (default: directory above the binary, or cwd)")
 	list := flag.Bool("list", false, "list properties with a rule set")
+	out := flag.String("out", "", "directory for the evidence file (default <verif>/evidence)")
 	flag.Parse()
 	if *list {
 		var ids []string
@@ -70,5 +71,6 @@ func main() {
 	w := loadWorld(*repo, *prop)
 	r := newReport(*prop, *tier, seed)
 	fn(w, r)
+	r.evDir = *out
 	os.Exit(r.finish(vdir))
 }
